@@ -13,8 +13,8 @@ echo "--- build touched packages"; go build $pkgs "$@" 2>&1 | tail -3
 echo "--- existing tests with change: $pkgs $*"; go test -vet=off -count=1 $pkgs "$@" 2>&1 | grep -vE "^I\[|^E\[|^D\[" | tail -6
 cp seed_out/demo_test.go $pkg/zz_seed_demo_test.go
 echo "--- demo WITH change (must FAIL)"; go test -vet=off -count=1 -run "$run" ./$pkg/ 2>&1 | grep -E "^(--- FAIL|FAIL|ok|PASS)" | head -5
-git stash -q -- $files
+pf=$(mktemp); git diff -- $files > $pf; git apply -R $pf   # (not git stash: the stash is shared by all worktrees)
 echo "--- demo WITHOUT change (must PASS)"; go test -vet=off -count=1 -run "$run" ./$pkg/ 2>&1 | grep -E "^(--- FAIL|FAIL|ok|PASS)" | head -5
-git stash pop -q
+git apply $pf; rm -f $pf
 rm -f $pkg/zz_seed_demo_test.go
 git status --short | head -5
